@@ -12,6 +12,8 @@ CONSTANTS
   Coarse = FALSE
   RealNodes = {"b"}
   CancelOnReturn = FALSE
+  SkipOnBackendCancel = FALSE
+  EdgeGuard = TRUE
   BSilence = 0
   BCut = 0
   ShutNodes = {}
